@@ -436,4 +436,210 @@ theorem sub_trans (a b c : Ty) (wa : wf a = true) (wb : wf b = true) (wc : wf c 
     (h1 : sub a b = true) (h2 : sub b c = true) : sub a c = true :=
   sub_trans_aux _ a b c (Nat.le_refl _) wa wb wc h1 h2
 
+/-! ### `==` is symmetric on well-formed types -/
+
+theorem nodupL_cons (t : Ty) (ts : List Ty) : nodupL (t :: ts) = (!memL t ts && nodupL ts) := by
+  simp [nodupL]
+
+/-- counting modulo `==`: if the members of `as` are pairwise different, `as` and `bs` have the same
+    length, and every member of `as` equals some member of `bs`, then every member of `bs` equals
+    some member of `as` -/
+theorem pigeon_eqv : ∀ (as bs : List Ty),
+    (∀ a ∈ as, ∀ b ∈ bs, eqv a b = true → eqv b a = true) →
+    nodupL as = true → as.length = bs.length →
+    (∀ a ∈ as, ∃ b ∈ bs, eqv a b = true) →
+    ∀ b ∈ bs, ∃ a ∈ as, eqv b a = true := by
+  intro as
+  induction as with
+  | nil =>
+    intro bs _ _ hlen _ b hb
+    cases bs with
+    | nil => cases hb
+    | cons x xs => simp at hlen
+  | cons a as ih =>
+    intro bs hsym hnd hlen hsub b hb
+    rw [nodupL_cons, Bool.and_eq_true, Bool.not_eq_true'] at hnd
+    obtain ⟨b0, hb0, hab0⟩ := hsub a (by simp)
+    obtain ⟨l1, l2, rfl⟩ := List.append_of_mem hb0
+    have hfar : ∀ a' ∈ as, eqv a' b0 = false := by
+      intro a' ha'
+      cases h : eqv a' b0 with
+      | false => rfl
+      | true =>
+        exfalso
+        have h1 : eqv b0 a' = true := hsym a' (by simp [ha']) b0 (by simp) h
+        have h2 : eqv a a' = true := eqv_trans a b0 a' hab0 h1
+        have : memL a as = true := (memL_iff a as).mpr ⟨a', ha', h2⟩
+        rw [this] at hnd; exact absurd hnd.1 (by simp)
+    have hsub' : ∀ a' ∈ as, ∃ b' ∈ l1 ++ l2, eqv a' b' = true := by
+      intro a' ha'
+      obtain ⟨b', hb', hab'⟩ := hsub a' (by simp [ha'])
+      rcases List.mem_append.mp hb' with h | h
+      · exact ⟨b', by simp [h], hab'⟩
+      · rcases List.mem_cons.mp h with rfl | h
+        · rw [hfar a' ha'] at hab'; exact absurd hab' (by simp)
+        · exact ⟨b', by simp [h], hab'⟩
+    have hlen' : as.length = (l1 ++ l2).length := by
+      simp only [List.length_append, List.length_cons] at hlen ⊢; omega
+    have hsym' : ∀ a' ∈ as, ∀ b' ∈ l1 ++ l2, eqv a' b' = true → eqv b' a' = true := by
+      intro a' ha' b' hb' h
+      refine hsym a' (by simp [ha']) b' ?_ h
+      rcases List.mem_append.mp hb' with h | h <;> simp [h]
+    have ih' := ih (l1 ++ l2) hsym' hnd.2 hlen' hsub'
+    rcases List.mem_append.mp hb with h | h
+    · obtain ⟨a', ha', h'⟩ := ih' b (by simp [h]); exact ⟨a', by simp [ha'], h'⟩
+    · rcases List.mem_cons.mp h with rfl | h
+      · exact ⟨a, by simp, hsym a (by simp) b (by simp) hab0⟩
+      · obtain ⟨a', ha', h'⟩ := ih' b (by simp [h]); exact ⟨a', by simp [ha'], h'⟩
+
+theorem lookupF_of_mem {k : String} {t : Ty} {fs : List (String × Ty)} (hn : nodupKeys fs = true)
+    (hm : (k, t) ∈ fs) : lookupF k fs = some t := by
+  induction fs with
+  | nil => cases hm
+  | cons p fs ih =>
+    obtain ⟨k', w⟩ := p
+    simp only [nodupKeys, Bool.and_eq_true, Bool.not_eq_true'] at hn
+    simp only [lookupF]
+    rcases List.mem_cons.mp hm with h | h
+    · cases h; simp
+    · have hne : (k == k') = false := by
+        cases hkk : (k == k') with
+        | false => rfl
+        | true =>
+          have : k = k' := by simpa using hkk
+          subst this
+          have : fs.any (fun p => p.1 == k) = true := by
+            rw [List.any_eq_true]; exact ⟨(k, t), h, by simp⟩
+          rw [this] at hn; exact absurd hn.1 (by simp)
+      simp [hne, ih hn.2 h]
+
+theorem keys_nodup {fs : List (String × Ty)} (hn : nodupKeys fs = true) : (fs.map (·.1)).Nodup := by
+  induction fs with
+  | nil => simp
+  | cons p fs ih =>
+    obtain ⟨k, v⟩ := p
+    simp only [nodupKeys, Bool.and_eq_true, Bool.not_eq_true'] at hn
+    simp only [List.map_cons, List.nodup_cons]
+    refine ⟨?_, ih hn.2⟩
+    intro hmem
+    rw [List.mem_map] at hmem
+    obtain ⟨q, hq, hqk⟩ := hmem
+    have : fs.any (fun p => p.1 == k) = true := by
+      rw [List.any_eq_true]; exact ⟨q, hq, by simp [hqk]⟩
+    rw [this] at hn; exact absurd hn.1 (by simp)
+
+theorem keys_pigeonhole (fa fb : List (String × Ty)) (ha : nodupKeys fa = true)
+    (hlen : fa.length = fb.length) (hsub : ∀ p ∈ fa, p.1 ∈ fb.map (·.1)) :
+    ∀ q ∈ fb, q.1 ∈ fa.map (·.1) := by
+  intro q hq
+  apply Classical.byContradiction
+  intro hnot
+  have hqk : q.1 ∈ fb.map (·.1) := List.mem_map.mpr ⟨q, hq, rfl⟩
+  have hsub' : fa.map (·.1) ⊆ (fb.map (·.1)).erase q.1 := by
+    intro x hx
+    have hxq : x ≠ q.1 := fun h => hnot (h ▸ hx)
+    obtain ⟨p, hp, rfl⟩ := List.mem_map.mp hx
+    exact (List.mem_erase_of_ne hxq).2 (hsub p hp)
+  have h1 := List.Nodup.length_le_of_subset (keys_nodup ha) hsub'
+  have h2 : ((fb.map (·.1)).erase q.1).length = (fb.map (·.1)).length - 1 := by
+    rw [List.length_erase]; simp [hqk]
+  have h3 : 1 ≤ (fb.map (·.1)).length := List.length_pos_of_mem hqk
+  simp only [List.length_map] at h1 h2 h3
+  omega
+
+theorem eqvL_symm_sized (n : Nat) (as : List Ty) : ∀ (bs : List Ty), sizeL as + sizeL bs ≤ n →
+    wfL as = true → wfL bs = true →
+    (∀ a b : Ty, size a + size b ≤ n → wf a = true → wf b = true → eqv a b = true → eqv b a = true) →
+    eqvL as bs = true → eqvL bs as = true := by
+  induction as with
+  | nil =>
+    intro bs _ _ _ _ h
+    cases bs with
+    | nil => exact h
+    | cons b bs => rw [eqvL_nil_cons] at h; simp at h
+  | cons a as ih =>
+    intro bs hs wa wb hp h
+    cases bs with
+    | nil => rw [eqvL_cons_nil] at h; simp at h
+    | cons b bs =>
+      rw [eqvL_cons, Bool.and_eq_true] at h ⊢
+      simp only [sizeL] at hs
+      simp only [wfL, Bool.and_eq_true] at wa wb
+      exact ⟨hp a b (by omega) wa.1 wb.1 h.1, ih bs (by omega) wa.2 wb.2 hp h.2⟩
+
+theorem eqv_symm_aux : ∀ n : Nat, ∀ a b : Ty, size a + size b ≤ n → wf a = true → wf b = true →
+    eqv a b = true → eqv b a = true := by
+  intro n
+  induction n with
+  | zero => intro a b h; have := size_pos a; omega
+  | succ n ih =>
+    intro a b hs wa wb hab
+    have h1 := eqv_head hab
+    cases a <;> cases b <;> simp only [head] at h1 <;> (try omega)
+    all_goals try (rw [eqv]; done)
+    case fn.fn ps r ps2 r2 =>
+      rw [eqv_fn, Bool.and_eq_true] at hab ⊢
+      simp only [size] at hs
+      simp only [wf, Bool.and_eq_true] at wa wb
+      exact ⟨eqvL_symm_sized n ps ps2 (by omega) wa.1 wb.1 ih hab.1, ih r r2 (by omega) wa.2 wb.2 hab.2⟩
+    case arr.arr x y =>
+      rw [eqv_arr] at hab ⊢
+      simp only [size] at hs; simp only [wf] at wa wb
+      exact ih x y (by omega) wa wb hab
+    case cell.cell x y =>
+      rw [eqv_cell] at hab ⊢
+      simp only [size] at hs; simp only [wf] at wa wb
+      exact ih x y (by omega) wa wb hab
+    case tup.tup xs ys =>
+      rw [eqv_tup] at hab ⊢
+      simp only [size] at hs; simp only [wf] at wa wb
+      exact eqvL_symm_sized n xs ys (by omega) wa wb ih hab
+    case multi.multi xs ys =>
+      rw [eqv_multi, Bool.and_eq_true] at hab ⊢
+      simp only [size] at hs
+      simp only [wf, Bool.and_eq_true] at wa wb
+      have hlen : xs.length = ys.length := by simpa using hab.1
+      refine ⟨by simp [hlen], ?_⟩
+      rw [subL_iff] at hab ⊢
+      have hsub : ∀ a ∈ xs, ∃ b ∈ ys, eqv a b = true := fun a ha => (memL_iff a ys).mp (hab.2 a ha)
+      have hsym : ∀ a ∈ xs, ∀ b ∈ ys, eqv a b = true → eqv b a = true := fun a ha b hb h =>
+        ih a b (by have := size_lt_sizeL ha; have := size_lt_sizeL hb; omega) (wfL_mem wa.1.1.2 ha) (wfL_mem wb.1.1.2 hb) h
+      intro b hb
+      exact (memL_iff b xs).mpr (pigeon_eqv xs ys hsym wa.2 hlen hsub b hb)
+    case struct.struct fa fb =>
+      rw [eqv_struct, Bool.and_eq_true] at hab ⊢
+      simp only [size] at hs
+      simp only [wf, Bool.and_eq_true] at wa wb
+      have hlen : fa.length = fb.length := by simpa using hab.1
+      refine ⟨by simp [hlen], ?_⟩
+      rw [subF_iff] at hab ⊢
+      have hsubk : ∀ p ∈ fa, p.1 ∈ fb.map (·.1) := by
+        intro p hp
+        obtain ⟨t', hl, _⟩ := (fieldEq_iff p.1 p.2 fb).mp (hab.2 p hp)
+        exact List.mem_map.mpr ⟨(p.1, t'), lookupF_mem hl, rfl⟩
+      intro q hq
+      have := keys_pigeonhole fa fb wa.2 hlen hsubk q hq
+      obtain ⟨p, hp, hpk⟩ := List.mem_map.mp this
+      obtain ⟨t', hl, he⟩ := (fieldEq_iff p.1 p.2 fb).mp (hab.2 p hp)
+      have hq' : (p.1, q.2) ∈ fb := by rw [hpk]; exact hq
+      have ht' : t' = q.2 := by
+        have := lookupF_of_mem wb.2 hq'
+        rw [hl] at this; cases this; rfl
+      subst ht'
+      rw [fieldEq_iff]
+      refine ⟨p.2, ?_, ?_⟩
+      · rw [← hpk]; exact lookupF_of_mem wa.2 hp
+      · exact ih p.2 q.2 (by have := size_lt_sizeF (k := p.1) (x := p.2) (fs := fa) hp
+                             have := size_lt_sizeF (k := q.1) (x := q.2) (fs := fb) hq; omega)
+          (wfF_mem wa.1 hp) (wfF_mem wb.1 hq) he
+
+/-- **`==` is symmetric** on well-formed types -/
+theorem eqv_symm (a b : Ty) (wa : wf a = true) (wb : wf b = true) (h : eqv a b = true) : eqv b a = true :=
+  eqv_symm_aux _ a b (Nat.le_refl _) wa wb h
+
+theorem eqv_comm (a b : Ty) (wa : wf a = true) (wb : wf b = true) : eqv a b = eqv b a := by
+  cases h1 : eqv a b <;> cases h2 : eqv b a <;> try rfl
+  · have := eqv_symm b a wb wa h2; rw [h1] at this; exact absurd this (by simp)
+  · have := eqv_symm a b wa wb h1; rw [h2] at this; exact absurd this (by simp)
+
 end Ssl.Ty
